@@ -49,7 +49,7 @@ theorem seg_layout {L : Str} {st : List RedirCell} {mid post : List Token} {t : 
 def Tiled (L : Str) : Nat → List (Span × Bool) → Prop
   | _, [] => True
   | i, (p, _) :: rest =>
-    i ≤ p.1 ∧ p.1 < p.2 ∧ Spec.isLayout (L.length + 1) (Str.slice L i p.1) = true ∧ Tiled L p.2 rest
+    p.1 < p.2 ∧ LF L i p.1 ∧ Tiled L p.2 rest
 
 /-- two tokens of one group: the first, then (after layout) the second -/
 theorem two_tokens {L : Str} {st : List RedirCell} {post : List Token} {t1 t2 : Token}
@@ -81,7 +81,7 @@ theorem hereOK_none {len : Nat} {p p' : Span} (h : HereOK len p p' none) : p' = 
 
 /-- **the leaves of one run tile its line** (no here-document body, no D19) -/
 theorem tiled_of_covers {L : Str} {st : List RedirCell} {la : List Token} {B len : Nat}
-    (hnb : ∀ p, ¬ InBody st p) (hB : B ≤ L.length) :
+    (hnb : ∀ p, ¬ InBody st p) :
     ∀ {ts : List Token} {ls : List (Span × Bool)}, FCoversStrict len ts ls →
       (∀ x ∈ ls, x.2 = false) → NoEOF ts →
       ∀ (i : Nat) (mid : List Token), ChainL L st i (mid ++ ts ++ la) B →
@@ -106,21 +106,21 @@ theorem tiled_of_covers {L : Str} {st : List RedirCell} {la : List Token} {B len
       have hch' : ChainL L st i (mid ++ t1 :: (rest1 ++ ts2 ++ la)) B := by
         simpa [List.append_assoc] using hch
       obtain ⟨a1, b1, hp1⟩ := chain_pos hch' (hno1 t1 List.mem_cons_self)
-      have hb1 : b1 ≤ B := by
-        obtain ⟨m, _, h2⟩ := ChainL.split hch'
-        obtain ⟨_, h3⟩ := h2.first hp1
-        exact ChainL.le h3
       have ha1 : a1 ≤ L.length := by
         obtain ⟨m, _, h2⟩ := ChainL.split hch'
         obtain ⟨i', e, _, _, c3, _⟩ := h2
-        obtain ⟨_, hab, _⟩ := c3.pos hp1
-        omega
+        rcases c3 with ⟨a, _, hp, hae, hc⟩ | ⟨rfl, _, _⟩
+        · rw [hp1] at hp
+          cases hp
+          rcases hc with ⟨_, hle⟩ | ⟨_, hLa, _⟩
+          · omega
+          · exact Nat.le_of_lt (List.getElem?_eq_some_iff.mp hLa).1
+        · cases hp1
       obtain ⟨l1, hab, hc1⟩ := seg_layout hch' hp1 hmid ha1 hnb
       obtain ⟨bl, hbl, hle, hc2⟩ := hrest a1 b1 hp1 hc1
       have e1 : sp.1 = a1 := by rw [hsp, (tok_lexspan hp1).1]
       show Tiled L i ((sp, false) :: ls2)
-      refine ⟨by rw [e1]; exact l1.1, by rw [e1, hbl]; omega, ?_, ?_⟩
-      · rw [e1]; exact l1.2.2 _ (by omega)
+      refine ⟨by rw [e1, hbl]; omega, by rw [e1]; exact l1, ?_⟩
       · rw [hbl]
         exact ih hfl2 hno2 bl [] (by simpa using hc2) (fun t ht => by cases ht)
     -- groups of two and three tokens
@@ -187,9 +187,11 @@ theorem gapsOK_of_tiled (L : Str) : ∀ (ls : List (Span × Bool)) (i : Nat) (pb
     · simpa using hv
   | (p, b) :: rest, i, pb, h => by
     intro v hv
-    obtain ⟨h1, h2, h3, h4⟩ := h
+    obtain ⟨h2, h3, h4⟩ := h
+    have h1 := h3.1
+    have hle := h3.2.1
     unfold gapsOK at hv
-    rw [if_neg (by omega), if_pos h3] at hv
+    rw [if_neg (by omega), if_pos (h3.2.2 _ (by omega))] at hv
     simp only [List.nil_append] at hv
     have e : max i p.2 = p.2 := by omega
     rw [e] at hv
